@@ -54,6 +54,19 @@ def run(ctx):
                     got = outcome(BE.bc32decode, mt)
                     cases.append({"id": "bb%d.%d.%s" % (i, pos, ch), "kind": "bc32bad", "text": T(mt), "accepted": got[0] == "ok" and got[1] is not None})
             ctx.nontriv(("bc32bad", n))
+    # bc32 texts without any letter (digits only, found by enumeration) and without any digit: the case rule must not misfire on them
+    special = [bytes.fromhex(h) for h in ("29fded", "2bcb1a", "2d4e7f", "3bebed", "578ba3d625", "f469a8c69a", "2ea3eac555")]
+    tries = 0
+    while len(special) < 10 and tries < 200000:
+        tries += 1
+        d_ = rb(3)
+        if not any(ch.isdigit() for ch in BE.bc32encode(d_)):
+            special.append(d_)
+    for i, data in enumerate(special):
+        t = outcome(BE.bc32encode, data)
+        back = outcome(BE.bc32decode, t[1]) if t[0] == "ok" else ("raise", None)
+        cases.append({"id": "bs%d" % i, "kind": "bc32", "data": B(data), "text": T(t[1]) if t[0] == "ok" else [], "back": B(back[1]) if back[0] == "ok" and back[1] is not None else [-9]})
+        ctx.nontriv(("bc32-special", "digits" if t[0] == "ok" and t[1].isdigit() else "letters"))
     # cbor
     for i, n in enumerate([0, 1, 22, 23, 24, 25, 254, 255, 256, 257, 65534, 65535, 65536, 65537, 70000]):
         fill = rng.randrange(256)
